@@ -1300,11 +1300,17 @@ class Interp:
                 return nm == 'isfinite'
             return Opaque(nm)
         if nm == 'isinstance':
+            if getattr(self, 'array_mode', False) and len(args) == 2 and isinstance(args[0], Node) and concrete(args[0]) is None:
+                names = [getattr(t_, 'name', '') for t_ in (args[1] if isinstance(args[1], (tuple, list)) else [args[1]])]
+                if any(str(n_).split('.')[-1] == 'ndarray' for n_ in names):
+                    return True
             return Opaque('isinstance')
         if nm == 'type':
             a = args[0]
             if isinstance(a, int) and not isinstance(a, bool):
                 return TypeTag('int')       # a concrete Python int (an index, a degree): `type(x) == int` holds; it is still not an array
+            if getattr(self, 'array_mode', False) and isinstance(a, Node) and concrete(a) is None:
+                return TypeTag('ndarray')   # array mode: every symbolic input stands for a numpy array (one generic element of it)
             return TypeTag('scalar' if isinstance(a, (Node, Fraction)) else type(a).__name__)
         if nm == 'print':
             return None
